@@ -199,6 +199,9 @@ EXTRA = [
     [[rm.comp(pseudos=[('contains', '-soup-contains', ['"x"', "'"])])]],
     [[rm.comp(pseudos=[('contains', '-soup-contains-own', ['\\', 'q"'])])]],
     [[rm.comp(pseudos=[('lang', ['en', "e'"])])]],
+    # identifiers that end / begin with a character str.strip() would remove (escaped in every spelling)
+    [[rm.comp(ids=['a '])]], [[rm.comp(classes=['k', 'b\xa0'])]], [[rm.comp(tag='p'), ('>', rm.comp(ids=['\u3000']))]],
+    [[rm.comp(classes=[' k'])]], [[rm.comp(attrs=[(None, 't', '=', 'v ', None)])]], [[rm.comp(ids=['x\x1f'])]],
 ]
 NRAND = 1000 if TIER == 'quick' else 6000
 ASTS = part(EXTRA + selgen.ast_pool(NRAND, SEED + 9, depth=2))
